@@ -199,6 +199,38 @@ pub fn roundtrip(ctx: &mut Ctx) {
         ctx.count(&format!("writer:{:?}", kind));
         ctx.count(&format!("cfg:c{}e{}m{}", cfg.compression, cfg.enc, if cfg.enc == 0 { 9 } else { cfg.mode }));
         let attrs = json!({"writer": format!("{:?}", kind), "cfg": cfg.to_json(), "entries": entries.iter().map(|e| e.to_json()).collect::<Vec<_>>()});
+        // ---------- C18 on freshly built entries (before anything is written or read back): the sizes an entry
+        // reports about itself are those of the chunks it holds
+        if entries.len() <= 8 {
+            for spec in &entries {
+                if spec.content.len() > 300_000 { continue; }
+                let (s2, c3) = (spec.clone(), cfg.clone());
+                if let Ok(Ok(e)) = catch(move || s2.build(&c3)) {
+                    ctx.oracle_eval();
+                    let total: usize = libpna::verif::normal_entry_data(&e).iter().map(|d| d.len()).sum();
+                    if e.metadata().compressed_size() != total {
+                        ctx.violation("C18", "a built entry reports a compressed_size different from the total of its data-chunk payloads", json!({"case":attrs,"entry":spec.to_json(),"compressed_size":e.metadata().compressed_size(),"payload_total":total}));
+                    }
+                    if let (Some(rs), true) = (e.metadata().raw_file_size(), spec.kind == Kind::File) {
+                        if rs != spec.content.len() as u128 {
+                            ctx.violation("C18", "a built entry records a raw size different from the bytes written into it", json!({"case":attrs,"entry":spec.to_json(),"raw":rs.to_string(),"written":spec.content.len()}));
+                        }
+                    }
+                    // … and survive a write / read cycle unchanged
+                    if let Ok((wbytes, count)) = libpna::verif::entry_write_in(&e) {
+                        if count != wbytes.len() { ctx.violation("C18", "write_in returned a count different from the bytes written", json!({"case":attrs,"entry":spec.to_json(),"count":count,"written":wbytes.len()})); }
+                        let arch = [&gen::SIG[..], &gen::frame(b"AHED", &[0; 8]), &wbytes[..], &gen::frame(b"AEND", &[])].concat();
+                        if let Ok(mut a) = Archive::read_header(&arch[..]) {
+                            if let Some(Ok(ReadEntry::Normal(r))) = a.entries().next() {
+                                if r.metadata().compressed_size() != e.metadata().compressed_size() || r.metadata().raw_file_size() != e.metadata().raw_file_size() {
+                                    ctx.violation("C18", "the sizes an entry reports change when it is written and read back", json!({"case":attrs,"entry":spec.to_json(),"built":[e.metadata().compressed_size().to_string(), format!("{:?}", e.metadata().raw_file_size())],"read_back":[r.metadata().compressed_size().to_string(), format!("{:?}", r.metadata().raw_file_size())]}));
+                                }
+                            }
+                        }
+                    }
+                }
+            }
+        }
         let (c2, e2) = (cfg.clone(), entries.clone());
         let (bytes, written) = match catch(move || gen::write_archive(kind, &c2, &e2)) {
             Ok(Ok(x)) => x,
